@@ -32,6 +32,14 @@ theorem versionCheck_same (tb : Val) : versionCheck tb (.str Gen.Vinegar.version
 /-- `1` is the marker; the fast path exists and (after the repair) requires empty arguments -/
 theorem gen_fastPath_shape : Gen.Vinegar.stopFastPathExists = true ∧ Gen.Vinegar.stopFastPathRequiresNoArgs = true := by decide
 theorem gen_sliceHashable : Gen.Vinegar.sliceHashable = true := by decide
+/-- measured on a probe class with canaries: the instance is made by `cls.__new__(cls)`; `__init__` does not run -/
+theorem gen_instantiatesByNew : Gen.Vinegar.instantiatesByNew = true := by decide
+theorem instantiationEvent_eq (c : ClsRef) : instantiationEvent c = .new c := by
+  simp [instantiationEvent, gen_instantiatesByNew]
+/-- measured: `instantiate_oldstyle_exceptions` changes no outcome -/
+theorem gen_oldstyleSwitchInert : Gen.Vinegar.oldstyleSwitchInert = true := by decide
+theorem loadExc_eq_core (r : RecvCfg) (env : Env) (p : Val) : loadExc r env p = loadCore r env p := by
+  simp [loadExc, gen_oldstyleSwitchInert]
 
 /-! ### small facts -/
 
